@@ -6,6 +6,7 @@ import SeqVerif.Model.FetchDocs
 import SeqVerif.Model.FetchFracs
 import SeqVerif.Model.FetchBytes
 import SeqVerif.Model.FetchRange
+import SeqVerif.Model.IDString
 /-!
 Driver for C04.  Requests (ids are `mid:rid`, lists comma separated, `-` = empty):
   `chunksize <maxFetch> <lens> <prev>`        -> `ok <n>`                 docsStream.calcChunkSize (repaired form)
@@ -13,6 +14,8 @@ Driver for C04.  Requests (ids are `mid:rid`, lists comma separated, `-` = empty
   `findlids <table> <ids>`                    -> `ok <lids>` | `panic`    sealedFetchIndex.findLIDs (repaired form)
   `findlids.old <table> <ids>`                -> `ok <lids>` | `panic`
   `lessorequal <cap> <table> <minBlockIDs> <lid> <id>` -> `ok <0|1>`      sealedIDsIndex.LessOrEqual
+  `idstr.enc <mid> <rid>`                     -> `ok <string bytes, hex>` seq.ID.String
+  `idstr.dec <string bytes, hex>`             -> `ok <mid> <rid>` | `err` seq.FromString
   `docpos.pack <bits> <block> <off>`          -> `ok <pos>`               seq.PackDocPos
   `docpos.unpack <bits> <pos>`                -> `ok <block> <off>`       DocPos.Unpack
   `groupoffsets <bits> <positions>`           -> `ok <block>/<offs +>/<idx +>;...`   seq.GroupDocsOffsets
@@ -119,6 +122,17 @@ def step (line : String) : String :=
     match cap.toNat?, parseIDs t, parseIDs mins, lid.toNat?, parseID id with
     | some cap, some t, some mins, some lid, some id => s!"ok {fmtBool (lessOrEqualBlk cap mins t lid id)}"
     | _, _, _, _, _ => "bad-op"
+  | ["idstr.enc", m, r] =>
+    match m.toNat?, r.toNat? with
+    | some m, some r => s!"ok {fmtHex (SV.IDStr.idString m r)}"
+    | _, _ => "bad-op"
+  | ["idstr.dec", x] =>
+    match hex? x with
+    | some bs =>
+      match SV.IDStr.fromString bs with
+      | some (m, r) => s!"ok {m} {r}"
+      | none => "err"
+    | none => "bad-op"
   | ["docpos.pack", bits, b, o] =>
     match bits.toNat?, b.toNat?, o.toNat? with
     | some bits, some b, some o => s!"ok {packDocPos bits b o}"
